@@ -525,7 +525,7 @@ func (d *Driver) maybeSelfClose(c *ClientState) {
 		(cp.CloseAfterReplies >= 0 && len(c.Replies) >= cp.CloseAfterReplies && (cp.CloseAfterSent < 0 || c.sent >= cp.CloseAfterSent)) {
 		c.SelfClosed = true
 		if cp.CloseRst {
-			d.K.PeerRst(c.Sock)
+			d.K.PeerRst(c.Sock, d.T.Pct(50))
 		} else {
 			d.K.PeerFin(c.Sock)
 		}
@@ -794,7 +794,7 @@ func (d *Driver) killConn(bc *BConn, rst bool) {
 		r.Dropped = true
 	}
 	if rst {
-		d.K.PeerRst(bc.Sock)
+		d.K.PeerRst(bc.Sock, d.T.Pct(50))
 	} else {
 		d.K.PeerFin(bc.Sock)
 	}
